@@ -43,6 +43,13 @@ impl<P: MNT6Config> From<G2Affine<P>> for G2Prepared<P> {
             addition_coefficients: vec![],
         };
 
+        // The point at infinity has no line functions (the formulas below would
+        // reach `Z = 0` and invert it). Leave the coefficient lists empty;
+        // `ate_miller_loop` maps such a prepared point to one.
+        if g.infinity {
+            return g_prep;
+        }
+
         let mut r = G2ProjectiveExtended {
             x: g.x,
             y: g.y,
@@ -80,6 +87,13 @@ impl<P: MNT6Config> From<G2Affine<P>> for G2Prepared<P> {
         }
 
         g_prep
+    }
+}
+
+impl<P: MNT6Config> G2Prepared<P> {
+    /// Is this the prepared point at infinity (no line coefficients)?
+    pub fn is_zero(&self) -> bool {
+        self.double_coefficients.is_empty()
     }
 }
 
